@@ -540,20 +540,20 @@ pub fn batch_main(b: &BatchArgs) -> BatchOut {
         out.log_hashes = first_hashes.iter().map(|(a, b)| (*a, *b)).collect();
     }
     if b.determinism_sample > 0 && !b.no_yield {
+        // Re-run the first chunks with EXACTLY the same boundaries in new processes: every
+        // scenario then has the same in-process history as in the first run, so the event logs
+        // must agree if the simulator and the library are deterministic. (Re-running a scenario
+        // behind different predecessors may legitimately take another schedule on a tree with a
+        // process-wide cache: its miss path has more scheduling points than its hit path.)
         let n = b.determinism_sample.min(b.scenarios);
-        // indices that are multiples of 16 within the first n*16 scenarios, split over 3 workers
         let span = (n * b.hash_every.max(1)).min(b.scenarios);
-        let parts = 3u64;
-        let per = (span + parts - 1) / parts;
         let mut chs = Vec::new();
-        for k in 0..parts {
-            let from = k * per;
-            let to = ((k + 1) * per).min(span);
-            if from >= to {
+        for (k, (from, to)) in chunks.iter().enumerate() {
+            if *from >= span || k >= 8 {
                 break;
             }
             let tag = format!("{}-det{}", b.tag, k);
-            chs.push((tag.clone(), spawn_worker(b, &pool_path, &refs_path, from, to, &tag, false)));
+            chs.push((tag.clone(), spawn_worker(b, &pool_path, &refs_path, *from, *to, &tag, false)));
         }
         for (tag, mut ch) in chs {
             let _ = ch.wait();
